@@ -54,7 +54,8 @@ Inductive sres := SFail | SOk (s : setting) | SUnspec.
 Definition n_set_int (auto : bool) (s : setting) (v : Z) : sres :=
   match s_pl s with
   | PNone | PInt _ => SOk (set_pl s (PInt v))
-  | PFloat _ => if auto then SOk (set_pl s (PFloat (b64_of_Z_via_float v))) else SFail
+  | PInt64 _ => SOk (set_pl s (PInt64 v))
+  | PFloat _ => if auto then SOk (set_pl s (PFloat (b64_of_Z v))) else SFail
   | _ => SFail
   end.
 
@@ -62,7 +63,7 @@ Definition n_set_int64 (auto : bool) (s : setting) (v : Z) : sres :=
   match s_pl s with
   | PNone | PInt64 _ => SOk (set_pl s (PInt64 v))
   | PInt _ => if in_int v then SOk (set_pl s (PInt v)) else SFail
-  | PFloat _ => if auto then SOk (set_pl s (PFloat (b64_of_Z_via_float v))) else SFail
+  | PFloat _ => if auto then SOk (set_pl s (PFloat (b64_of_Z v))) else SFail
   | _ => SFail
   end.
 
